@@ -51,6 +51,8 @@ PROGRAMS = [
     ("class-init-with-return-type", "class Base(def name: Str)\nclass Counter: Base(\"counter\")\n    def count: Int := 0\n    def __init__(self, start: Int) -> None =>\n        self.count := start + 1\n        return None\ndef c := Counter(41)\nprint(c.count)"),
     ("class-init-plain", "class Base(def name: Str)\nclass Counter: Base(\"counter\")\n    def count: Int := 0\n    def __init__(self, start: Int) =>\n        self.count := start + 1\ndef c := Counter(41)\nprint(c.count)"),
     ("sqrt", "from math import sqrt\ndef x: Float := 2.0\nprint(x)"),
+    ("vararg-typed", "def show(vararg xs: Int) => print(xs)\nshow(1)"),
+    ("vararg-after-plain", "def show(a: Int, vararg xs: Int) -> Int => a\nprint(show(1, 2))"),
 ]
 
 
@@ -333,6 +335,142 @@ def ob_annotation_slots(run, mir, rp):
         ob.inconclusive(str(e))
 
 
+GEN_MOD_RS = "src/generate/mod.rs"
+
+
+def ob_pipeline(run, mir, rp):
+    """gen_arguments (entry of the generation stage) uses the flag only to build the State it hands to convert_node."""
+    ob = run.ob("gen-arguments-noninterference", "E2", "gen_arguments with annotate=true and annotate=false on the same tree: the same calls with the "
+                "same arguments in the same order (State::from and convert_node compared with the flag erased - their own inertness is the "
+                "subject of the other obligations) and the same assembly of imports and statements; in particular nothing is added to or "
+                "removed from the collected imports depending on the flag", ["gen_arguments"])
+    try:
+        fn = e2.find1(mir, file=GEN_MOD_RS, name="gen_arguments")
+        gf = e2.rust_struct(GEN_MOD_RS, "GenArguments")
+        if "annotate" not in gf:
+            raise Unsupported(f"GenArguments fields {gf}")
+        ex = Exec(mir, max_paths=5000)
+
+        def hook(ex_, st_, v):
+            if isinstance(v, Agg) and v.ty == "GenArguments" and v.names and "annotate" in v.names:
+                return ex_.to_val(st_, Agg("GenArguments~", None, [f for n_, f in zip(v.names, v.fields) if n_ != "annotate"], [n_ for n_ in v.names if n_ != "annotate"]))
+            return None
+        ex.val_hook = hook
+        st = State()
+        ann = z3.Bool("gen_args.annotate")
+        ga = Agg("GenArguments", None, [ann if f == "annotate" else Opq(z3.Const("gen_args." + f, Val), "?") for f in gf], gf)
+        args = [Ref(ex.new_cell(st, Opq(z3.Const("ast_ty", Val), "ASTTy"))), Ref(ex.new_cell(st, ga)), Ref(ex.new_cell(st, Opq(z3.Const("ctx", Val), "Context")))]
+        ends = e2.run_kernel(run, ex, fn, args, st)
+        if any(p.kind not in ("return", "panic") for p in ends):
+            raise Unsupported("unexpected path ends")
+        ids, obs_of = {}, {}
+        idT, idF = z3.IntVal(-1), z3.IntVal(-1)
+        for p in ends:
+            parts = [("end", p.kind, z3.simplify(ex.to_val(p.state, p.ret)).sexpr() if p.kind == "return" else "")]
+            parts += [(ev["name"], tuple(z3.simplify(a).sexpr() for a in ev["argvals"])) for ev in p.events]
+            o = repr(parts)
+            k = ids.setdefault(o, len(ids))
+            obs_of[k] = o
+            c = conj(p.cond)
+            cT = z3.simplify(z3.substitute(c, (ann, z3.BoolVal(True))))
+            cF = z3.simplify(z3.substitute(c, (ann, z3.BoolVal(False))))
+            if not z3.is_false(cT):
+                idT = z3.If(cT, z3.IntVal(k), idT)
+            if not z3.is_false(cF):
+                idF = z3.If(cF, z3.IntVal(k), idF)
+        if not any("convert_node" in o for o in ids):
+            raise Unsupported("gen_arguments no longer calls convert_node")
+        run.samples.append({"obligation": ob.id, "paths": len(ends), "distinct_observables": len(ids)})
+
+        def rp_model(model):
+            r = fam_replay(rp, "gen-arguments")(model)
+            try:
+                r["observable_on"] = obs_of.get(int(model["observable(annotate=on)"]), "?")[:600]
+                r["observable_off"] = obs_of.get(int(model["observable(annotate=off)"]), "?")[:600]
+            except Exception:
+                pass
+            return r
+        e2.prove(run, ob, ex, [], idT == idF, {"observable(annotate=on)": idT, "observable(annotate=off)": idF}, rp_model)
+    except Unsupported as e:
+        ob.inconclusive(str(e))
+
+
+def ob_printer_erasure(run, mir, rp):
+    """What the printer emits for a node with an annotation is what it emits without it, plus the annotation."""
+    import printkern
+    ob = run.ob("printer-annotation-erasure", "E3-text", "to_py arms of Core::{VarDef, FunArg, FunDef}: for every setting of the other fields (vararg, "
+                "default / value present, decorators) the text with the `ty` slot filled equals the text with the slot empty once the pieces "
+                "`: <ty>` resp. ` -> <ty>` are removed; Core::FunDefOp prints the FunDef with the same slot", ["to_py (4 arms)"])
+    try:
+        claims, n = [], 0
+        for kind, mark in (("VarDef", ": "), ("FunArg", ": "), ("FunDef", " -> ")):
+            ex, ind, vals, out = printkern.run_arm(run, mir, kind)
+            W, N = [], []
+            for p, d in out:
+                if d is None:
+                    continue          # panic path (ind - 1 at level 0), not a text
+                fl = printkern.flags_of(p.cond, kind)
+                if fl is None:
+                    raise Unsupported(f"{kind}: path condition not understood")
+                slot = fl.pop(("discr", "ty"), None)
+                if slot is None:
+                    raise Unsupported(f"{kind}: a path does not look at the annotation slot")
+                has = slot[0][0] == 1 if slot[0][1] else slot[0][0] != 1
+                (W if has else N).append((fl, d))
+            if not W or not N:
+                raise Unsupported(f"{kind}: {len(W)} paths with, {len(N)} paths without annotation")
+            for flw, with_ty in W:
+                # every setting of the other fields that reaches this path reaches some path without annotation: compare with each compatible one
+                comp = [(fln, d) for fln, d in N if all(fln.get(k, v) == v for k, v in flw.items())]
+                if not comp:
+                    raise Unsupported(f"{kind} {flw}: no path without annotation under the same flags")
+                erased, i, removed = [], 0, 0
+                with_ty = list(with_ty)
+                while i < len(with_ty):
+                    pc = with_ty[i]
+                    nxt = with_ty[i + 1] if i + 1 < len(with_ty) else None
+                    if pc[0] == "lit" and nxt and nxt[0] == "slot" and nxt[2].startswith("ty.") and pc[1].endswith(mark):
+                        rest = pc[1][:-len(mark)]
+                        if rest:
+                            erased.append(("lit", rest))
+                        i += 2
+                        removed += 1
+                        continue
+                    erased.append(pc)
+                    i += 1
+                merged = []
+                for pc in erased:            # merge adjacent literals the removal brought together
+                    if merged and pc[0] == "lit" and merged[-1][0] == "lit":
+                        merged[-1] = ("lit", merged[-1][1] + pc[1])
+                    else:
+                        merged.append(pc)
+                for fln, without in comp:
+                    n += 1
+                    ok = removed == 1 and merged == list(without)
+                    if not ok:
+                        run.samples.append({"obligation": ob.id, "kind": kind, "flags": str({**flw, **fln}), "with": str(with_ty)[:300], "without": str(without)[:300]})
+                    claims.append(z3.BoolVal(bool(ok)))
+        # FunDefOp delegates to the FunDef arm with the slot copied
+        fn_ex, _ind, vals, out = printkern.run_arm(run, mir, "FunDefOp")
+        for p, d in out:
+            calls_ = [ev for ev in p.events if ev["name"].split("::")[-1] == "to_py"]
+            ok = False
+            if len(calls_) == 1:
+                a = calls_[0]["args"][0]
+                a = fn_ex.read_ref(p.state, a) if isinstance(a, Ref) else a
+                if isinstance(a, Agg) and a.variant == "FunDef" and a.names:
+                    tyv = a.fields[a.names.index("ty")]
+                    ok = z3.eq(fn_ex.to_val(p.state, tyv), fn_ex.to_val(p.state, vals["ty"])) and d == [("slot", "to_py", d[0][2], 0)] if d else False
+            n += 1
+            claims.append(z3.BoolVal(bool(ok)))
+        if n < 9:
+            raise Unsupported(f"only {n} comparisons")
+        e2.prove(run, ob, ex, [], conj(claims), {}, fam_replay(rp, "printer"))
+        run.samples.append({"obligation": ob.id, "comparisons": n})
+    except Unsupported as e:
+        ob.inconclusive(str(e))
+
+
 def run(run):
     mir = e2.load_mir(run)
     rp = common.Replay()
@@ -374,6 +512,8 @@ def run(run):
     for short, file in targets:
         noninterference(run, mir, rp, short, file, sf)
     ob_annotation_slots(run, mir, rp)
+    ob_pipeline(run, mir, rp)
+    ob_printer_erasure(run, mir, rp)
 
     if run.clean():
         n, bad = program_family(rp)
